@@ -367,6 +367,8 @@ def run_c11(case: dict[str, Any]) -> dict[str, Any]:
     """case: {"spans": [...], "batch": b, "time_buffer": tb}"""
     if "rounds" in case:
         return run_c11_rounds(case)
+    if case.get("entry"):
+        return run_c11_entry(case)
     stream = dec_spans(case["spans"])
     b, tb = case["batch"], case["time_buffer"]
     viol: list[dict[str, Any]] = []
@@ -459,6 +461,63 @@ def run_c11(case: dict[str, Any]) -> dict[str, Any]:
         dispose(dh)
     key = json.dumps(case["spans"]) + f"|{b}|{tb}"
     return {"violations": viol, "nontrivial": [key] if nontrivial else [], "sample": case if len(nontrivial) >= 2 else None}
+
+
+def run_c11_entry(case: dict[str, Any]) -> dict[str, Any]:
+    """case: {"entry": True, "spans": [...], "batch": b, "time_buffer": tb, "unique": bool}: one run of the real entry point
+    `otel_to_pv(config, ingest_data=True, find_unique_graphs=unique)` on a file-backed store; afterwards table `nodes` must be what the
+    three cleaning operations give in the documented order - whatever the other options of the run are - and what is streamed must be
+    traces of that table (all of them without the unique-graph filter)."""
+    from tel2puml.otel_to_pv.otel_to_pv import otel_to_pv
+    _, _, _, dm = _imports()
+    stream = dec_spans(case["spans"])
+    b, tb, unique = case["batch"], case["time_buffer"], bool(case.get("unique"))
+    viol: list[dict[str, Any]] = []
+    # what ingestion alone stores (the same real ingestion code, in memory)
+    dh0 = store_from(stream, b, tb)
+    try:
+        v0 = view(dh0)
+    finally:
+        dispose(dh0)
+    want = spec_remove_inconsistent(v0["nodes"])
+    w = spec_window(min(s.start for s in stream), max(s.end for s in stream), tb * MIN) if stream else None
+    want = spec_remove_outside(want, w) if w is not None else None
+    want = spec_rename(want) if want is not None else None
+    tmpdir = tempfile.mkdtemp(prefix="vstore_", dir="/dev/shm" if os.path.isdir("/dev/shm") else None)
+    uri = f"sqlite:///{tmpdir}/store.db"
+    try:
+        os.makedirs(os.path.join(tmpdir, "data"))
+        json.dump({"spans": [{"job_name": s.job_name, "job_id": s.job_id, "event_type": s.event_type, "event_id": s.event_id,
+                              "start_timestamp": s.start, "end_timestamp": s.end, "application_name": s.app, "parent_event_id": s.parent}
+                             for s in stream]}, open(os.path.join(tmpdir, "data", "spans.json"), "w"))
+        if "temp_root_nodes" in dm.Base.metadata.tables:
+            dm.Base.metadata.remove(dm.Base.metadata.tables["temp_root_nodes"])
+        streamed: set[str] = set()
+        try:
+            for job_name, pv_streams in otel_to_pv(c15_config(tmpdir, uri, b, tb), ingest_data=True, find_unique_graphs=unique):
+                for pv_stream in pv_streams:
+                    streamed |= {e["jobId"] for e in pv_stream}
+        except ValueError as e:
+            if w is not None:
+                viol.append({"key": "run/raises.only_if_window_empty", "what": f"ValueError although the window {w} is not empty: {e}"[:300], "case": case})
+            return {"violations": viol}
+        except Exception as e:  # noqa: BLE001
+            return {"violations": [{"key": f"run/no_raise.{type(e).__name__}", "what": str(e)[:300], "case": case}]}
+        v = view_of_uri(uri)
+        if want is not None:
+            if v["nodes"] != want:
+                viol.append({"key": "run/ensures.nodes_cleaned_in_documented_order",
+                             "what": f"unique={unique}, window {w}: table nodes holds {sorted(v['nodes'])}, cleaning prescribes {sorted(want)}"[:600], "case": case})
+            kept = {s_.job_id for s_ in want.values()}
+            if not streamed <= kept or (not unique and streamed != kept):
+                viol.append({"key": "run/ensures.streams_the_cleaned_store", "what": f"unique={unique}: streamed {sorted(streamed)}, kept {sorted(kept)}", "case": case})
+        if wf(v):
+            viol.append({"key": "run/ensures.WF", "what": "; ".join(wf(v)), "case": case})
+    finally:
+        shutil.rmtree(tmpdir, ignore_errors=True)
+    removed = want is not None and len(want) < len(v0["nodes"])
+    key = "entry|" + json.dumps(case["spans"])[:300] + f"|{b}|{tb}|{unique}"
+    return {"violations": viol, "nontrivial": [key] if removed else [], "sample": case if removed and unique else None}
 
 
 def run_c11_rounds(case: dict[str, Any]) -> dict[str, Any]:
@@ -562,6 +621,19 @@ def domain_c11(tier: str, rng: random.Random) -> Iterable[dict[str, Any]]:
         yield {"spans": enc_spans(order), "batch": 2, "time_buffer": 1}
         if any(s.parent is not None and s.parent not in {t.event_id for t in spans} for s in spans):
             yield {"spans": enc_spans(spans), "batch": 100, "time_buffer": 1, "skip_inconsistent": True}
+    # the same through the real entry point: every option combination of a run must leave the documented cleaning behind
+    for spans in combos[::6]:
+        cross = any(s.parent is not None and s.parent in {t.event_id for t in spans} and s.job_id != next(t.job_id for t in spans if t.event_id == s.parent) for s in spans)
+        if cross or not spans:
+            continue    # the sequencer fails on parent links that cross traces (outside the domain, DESIGN I.3)
+        for tb in (0, 1, 2):
+            for unique in (False, True):
+                yield {"entry": True, "spans": enc_spans(spans), "batch": 100, "time_buffer": tb, "unique": unique}
+    # ... with data at both ends of the time axis only (nothing inside the buffered window) and one trace inside
+    ends = [span("E", 0, None, 0, 0, name="W1"), span("E", 1, "E.s0", 0, 0, name="W1"), span("L", 0, None, 9, 9, name="W1")]
+    for extra in ([], [span("M", 0, None, 4, 5, name="W1"), span("M", 1, "M.s0", 4, 5, name="W1")]):
+        for unique in (False, True):
+            yield {"entry": True, "spans": enc_spans(ends + extra), "batch": 100, "time_buffer": 2, "unique": unique}
     # two rounds on one holder: the second round's spans lie later (or earlier) than everything of the first round
     later = [s._replace(job_id="L" + s.job_id, event_id="L" + s.event_id, parent=None if s.parent is None else "L" + s.parent,
                         start=s.start + 10 * MIN, end=s.end + 10 * MIN) for s in chain("A", 2, "W1") + chain("B", 3, "W1", True)]
